@@ -49,6 +49,9 @@ def run_seq(args):
         if k:
             await r.recv([{"type": "DATA", "frm": i, "retx": 0, "ack": 0, "pl": 200 + i} for i in range(k)])
         for ch in chunks:
+            if ch == "UPRAISE":
+                r.up_raise_next = True          # the upper layer fails while consuming its next delivery
+                continue
             await r.recv(ch)
     return hostrig.run_script(script)
 
@@ -157,6 +160,19 @@ def run(ctx: Ctx):
                                                             "retx": 0, "ack": 0, "pl": 7}]]
             jobs.append((3, chunks))
             metas.append({"src": "codes", "k": 3, "chunks": chunks})
+    # the upper layer fails while consuming a delivery (DATA payload or reset notification; always the last frame of its read - what happens
+    # to the rest of a read after such an exception is nobody's promise): the frame stays accepted and acknowledged exactly once - its
+    # retransmission is a duplicate, the next frame is the next one
+    for k in range(8):
+        for retx0 in (0, 1):
+            d = lambda frm, retx, pl: {"type": "DATA", "frm": frm % 8, "retx": retx, "ack": 0, "pl": pl}   # noqa
+            for chunks in ([["UPRAISE"][0], [d(k, retx0, 11)], [d(k, 1, 11)], [d(k + 1, 0, 12)]],
+                           [[d(k, 0, 11)], "UPRAISE", [d(k + 1, retx0, 12)], "UPRAISE", [d(k + 1, 1, 12), d(k + 2, 0, 13)], [d(k + 3, 0, 14)]],
+                           ["UPRAISE", [{"type": "RSTACK", "ver": 2, "code": 11}], [d(0, 0, 15)], [d(1, 0, 16)]],
+                           ["UPRAISE", [d(k + 7, 1, 9), {"type": "RSTACK", "ver": 2, "code": 2}], [d(0, retx0, 15)], [d(1, 0, 16)]],
+                           ["UPRAISE", [{"type": "ERROR", "ver": 2, "code": 0x51}], [d(k, 0, 17)]]):
+                jobs.append((k, chunks))
+                metas.append({"src": "upraise", "k": k, "chunks": chunks})
     # long random sequences crossing the wrap many times
     rng = ctx.rng
     nrand = 150 if ctx.quick else 3000
